@@ -186,6 +186,10 @@ def judge_rejected(version, le):
 
 
 def run(ctx):
+    from .. import pipeline
+
+    # wiring: the run's stored columns are this stage applied to the run's stored columns (see nssmc/pipeline.py)
+    pipeline.run_in(ctx, ['taus'], ('A', 'C'))
     tier = ctx.tier
     for ver in (3, 1, 2):
         T = TR.load(ver)
@@ -290,6 +294,10 @@ def run(ctx):
 
 
 def replay(case):
+    if isinstance(case, dict) and case.get("kind") == "pipeline":
+        from .. import pipeline
+
+        return pipeline.replay(case)
     k = case["kind"]
     if k == "sample":
         v, _ = judge_sampler(case["version"], case["le"], case["b"], case["u"], via=case["via"])
